@@ -249,6 +249,7 @@ func checkC17(p *Prog, r *Report) {
 	bips, okb := p.ipathsHavoc(tr, keepB)
 	errPrefix := sk(errsV) + "["
 	missClean, wroteFailed, nOne, nClean, nFailed := "", "", 0, 0, 0
+	leftLoop := ""
 	for _, ip := range bips {
 		n := 0
 		for _, b := range ip.Root {
@@ -287,6 +288,12 @@ func checkC17(p *Prog, r *Report) {
 			fmt.Println("R17b path", ip.Trace[:min(len(ip.Trace), 90)], "exit", ip.Exit, "isNil", isNil, "notNil", notNil, "wrote", wrote, "hv", hv)
 		}
 		if hv < 2 && !wrote {
+			// the loop was left inside this iteration without writing: the packages after this one are never
+			// processed. Legitimate only if the process ends because of an I/O failure, which cannot happen
+			// before the write; a failed (or clean) package must not stop the others (cf. C06 R06f).
+			if isNil || notNil {
+				leftLoop = "the per-package loop is left (" + ip.Exit + ") in the iteration of a package " + map[bool]string{true: "that failed", false: "that translated"}[notNil] + " before anything was written: later packages are not translated; path " + ip.Trace
+			}
 			continue
 		}
 		nOne++
@@ -332,11 +339,45 @@ func checkC17(p *Prog, r *Report) {
 		}
 	}
 	r.Check("R17a", "exit status 0 only if no package failed (inductive step over an arbitrary iteration)", tr.Pos(), okb && nRetP > 0 && retBad == "", retBad)
+	// the converse: a non-zero exit needs a failure. On every abstract path that ends in os.Exit some failure
+	// is known: an error value is non-nil (pattern error, the package's error, an I/O error), the loop-carried
+	// flag is true or the failure counter is positive. A path that exits although everything it tested
+	// succeeded reports failure for a run in which every package translated.
+	exitBad, nExit := "", 0
+	for _, ip := range bips {
+		if len(ip.eventsOf("os.Exit")) == 0 {
+			continue
+		}
+		nExit++
+		cause := false
+		for k := range ip.Rels {
+			if nilCmp(k, " != ", "") {
+				cause = true
+			}
+			// a helper that reports success as a boolean: its result is false
+			if i := topLevelIndex(k, " == "); i > 0 && !strings.HasPrefix(k, "phi:") && !strings.HasPrefix(k, "false == phi:") &&
+				(k[:i] == "false" && strings.Contains(k[i:], "(") || k[i+4:] == "false" && strings.Contains(k[:i], "(")) {
+				cause = true
+			}
+			if strings.HasPrefix(k, "phi:") && (strings.HasSuffix(k, " == true") || strings.HasSuffix(k, " > 0") || strings.HasSuffix(k, " != 0")) ||
+				strings.HasPrefix(k, "true == phi:") || strings.HasPrefix(k, "0 < phi:") || strings.HasPrefix(k, "0 != phi:") {
+				cause = true
+			}
+		}
+		if !cause {
+			if os.Getenv("VERIF_DEBUG") == "R17a" {
+				fmt.Println("R17a exit without cause:", ip.Trace, relList(ip.Rels))
+			}
+			exitBad = "os.Exit is reached on a path on which no failure is known (no error value is non-nil, the error flag is not set): " + ip.Trace
+		}
+	}
+	r.Check("R17a", "a non-zero exit only after a failure", tr.Pos(), okb && nExit > 0 && exitBad == "", exitBad)
 	if nClean == 0 || nFailed == 0 {
 		r.Unknown("R17b", "translate loop paths", tr.Pos(), fmt.Sprintf("%d one-iteration paths with err == nil and %d with err != nil: the per-package error test is not visible on the paths", nClean, nFailed))
 	}
 	r.Check("R17b", "translate writes every error-free package", instrPos(write), okb && nOne > 0 && missClean == "", missClean)
 	r.Check("R17b", "translate writes a failed package only under -ignore-errors", instrPos(write), okb && nOne > 0 && wroteFailed == "", wroteFailed)
+	r.Check("R17b", "a package's error does not end the per-package loop", instrPos(errIf), okb && nOne > 0 && leftLoop == "", leftLoop)
 	// --- R17c (on the abstract paths of translate, per-package helpers spliced in)
 	itpF := p.Func(coqPkg, "ImportToPath")
 	var cfcF *ssa.Function // the function of the command that renders a coq.File with File.Write
@@ -654,16 +695,23 @@ func checkLoaderAndFlags(p *Prog, r *Report, tr *ssa.Function, tpCall *ssa.Call)
 	}
 	r.Func(FuncName(mainF))
 	flagVar := map[string]ssa.Value{} // flag name -> address registered
+	flagDef := map[string]ssa.Value{} // flag name -> default value
+	var regs, parses []*ssa.Call
 	p.instrs(mainF, func(b *ssa.BasicBlock, i int, in ssa.Instruction) {
 		c, ok := in.(*ssa.Call)
 		if !ok {
 			return
 		}
 		n := calleeName(c)
-		if n == "flag.StringVar" || n == "flag.BoolVar" {
+		if (n == "flag.StringVar" || n == "flag.BoolVar") && len(c.Call.Args) >= 3 {
 			if name, ok := constString(c.Call.Args[1]); ok {
 				flagVar[name] = c.Call.Args[0]
+				flagDef[name] = c.Call.Args[2]
+				regs = append(regs, c)
 			}
+		}
+		if n == "flag.Parse" {
+			parses = append(parses, c)
 		}
 	})
 	trCalls := blockOfCall(p, mainF, cmdGoosePkg+".translate")
@@ -684,6 +732,34 @@ func checkLoaderAndFlags(p *Prog, r *Report, tr *ssa.Function, tpCall *ssa.Call)
 	wire("out", 1)
 	wire("dir", 2)
 	wire("ignore-errors", 3)
+	// the command line is parsed after every registration and before the values are read; without the parse
+	// (or with a flag registered after it) -out, -dir and -ignore-errors keep their defaults whatever was given
+	if len(regs) > 0 {
+		okP, why := len(parses) == 1, fmt.Sprintf("%d calls of flag.Parse in main", len(parses))
+		if okP {
+			if !dominatesInstr(parses[0], tc) {
+				okP, why = false, "flag.Parse does not precede the call of translate on every path"
+			}
+			for _, rg := range regs {
+				if !dominatesInstr(rg, parses[0]) {
+					okP, why = false, "a flag registration (-"+func() string { n, _ := constString(rg.Call.Args[1]); return n }()+") does not precede flag.Parse on every path"
+				}
+			}
+			// the values are read after the parse
+			for _, a := range tc.Call.Args {
+				if ld, isLd := a.(*ssa.UnOp); isLd && !dominatesInstr(parses[0], ld) {
+					okP, why = false, "a flag variable is read before flag.Parse"
+				}
+			}
+		}
+		r.Check("R17e", "flags are parsed after registration and before use", instrPos(tc), okP, why)
+		// "writes nothing unless -ignore-errors is given": the flag is off when it is not given
+		if d := flagDef["ignore-errors"]; d != nil {
+			c, isC := d.(*ssa.Const)
+			r.Check("R17e", "flag -ignore-errors defaults to false", instrPos(tc), isC && c.Value != nil && c.Value.String() == "false",
+				"the default of -ignore-errors is "+sk(d)+": a package with a conversion error would be written although the flag was not given")
+		}
+	}
 	okArgs := false
 	if ac, ok := tc.Call.Args[0].(*ssa.Call); ok && calleeName(ac) == "flag.Args" {
 		okArgs = true
